@@ -1465,7 +1465,7 @@ func clkCarriesInstant(t types.Type, depth int) bool {
 
 // ---- the rule ------------------------------------------------------------------------------------------
 
-// clkFilter names a temporal filter and the number of its comparisons that read long-lived state (confirmed by reading).
+// clkFilter names a temporal filter and the number of distinct long-lived cells its comparisons read (confirmed by reading).
 type clkFilter struct {
 	fn    string
 	floor int
@@ -1504,9 +1504,10 @@ func noStaleClock(r *Run, filters []clkFilter) {
 			r.Fail("no-stale-clock:comparisons:"+short(fl.fn), r.FnPos(fn), "undecided: no comparison of two instants found in "+fl.fn+" (the temporal filter is not where it is expected)")
 			continue
 		}
-		n := 0
+		// the floor counts what it protects: the distinct long-lived cells the filter's comparisons read (however many
+		// comparisons are spelled over them)
+		read := map[string]bool{}
 		for _, cmp := range comps {
-			reads := 0
 			for _, op := range cmp.operands {
 				out := e.explore(op, "", true)
 				for _, u := range out.unknown {
@@ -1516,15 +1517,12 @@ func noStaleClock(r *Run, filters []clkFilter) {
 					if c.f != nil && e.isCertificateField(c.f) {
 						continue
 					}
-					reads++
+					read[c.key()] = true
 					enqueue(c, "read by the comparison "+clipStr(clkInstrText(r, cmp.in), 100)+" of "+fl.fn)
 				}
 			}
-			if reads > 0 {
-				n++
-			}
 		}
-		r.Floor("comparisons of "+short(fl.fn)+" that read long-lived state", n, fl.floor)
+		r.Floor("long-lived cells read by the comparisons of "+short(fl.fn), len(read), fl.floor)
 	}
 	// the closure of "feeds": every cell is judged on its own stores
 	nStores := 0
@@ -1730,18 +1728,31 @@ func c02LogOptions(r *Run, fn *ssa.Function, v ssa.CallInstruction) {
 						return
 					}
 				}
-				atom := ""
+				// … and only where no instant is configured: with a configured (non-zero) instant the store does not
+				// execute, or what it stores is that configured instant
+				cfgd, free := Sigma{}, Sigma{}
 				for _, pat := range []string{"(time.Time).IsZero(" + name + path + ")", "(time.Time).IsZero(p0.validationOpts" + path + ")"} {
-					if len(r.bindAtom(fn, boolAtom(pat))) > 0 {
-						atom = pat
-						break
+					for _, k := range r.bindAtom(fn, boolAtom(pat)) {
+						cfgd[k], free[k] = "F", "T"
 					}
 				}
-				if atom == "" {
+				if len(cfgd) == 0 {
 					bad = "the configured instant " + strings.TrimPrefix(path, ".") + " is overwritten without a test that none is configured (IsZero)"
 					return
 				}
-				r.GuardAtom(fn, nil, key+":configured-time-kept"+path, boolAtom(atom), "F", []ssa.Instruction{x}, "the replacement of the configured instant by a clock reading")
+				reachC, reachF := r.D.Walk(fn, cfgd, nil, nil), r.D.Walk(fn, free, nil, nil)
+				r.Valuations += 2
+				if !reachF.Has(x) {
+					bad = "undecided: the replacement of a zero " + strings.TrimPrefix(path, ".") + " is unreachable even when none is configured (positive control)"
+					return
+				}
+				if reachC.Has(x) {
+					if under := r.D.DUnder(x.Val, reachC); under != name+path && under != "p0.validationOpts"+path {
+						bad = "with a configured (non-zero) " + strings.TrimPrefix(path, ".") + " the copy's field is still overwritten, with " + clipStr(under, 80) + ": the configured fixed time is not the instant compared"
+						return
+					}
+				}
+				r.Pass(key+":configured-time-kept"+path, r.Where(x), "with a configured (non-zero) instant the copy keeps it: the replacement by a clock reading is unreachable, or stores the configured instant itself")
 				overrides = append(overrides, strings.TrimPrefix(path, "."))
 			default:
 				bad = "the copy" + path + " is used by " + clipStr(clkInstrText(r, ref), 80) + ", which may change it"
